@@ -26,7 +26,7 @@ from hpstatic.poly import Canon
 from hpstatic.terms import (sym, intern, show, subterms, calls_in, NONE, num, kw)
 from .common import SCATTERER, as_difference, is_sum
 
-MUTATION_TARGETS = {'holopy/core/math.py': ['rotation_matrix', 'rotate_points', 'transform_cartesian_to_spherical', 'transform_spherical_to_cartesian', 'transform_cartesian_to_cylindrical', 'transform_cylindrical_to_cartesian', 'transform_cylindrical_to_spherical', 'transform_spherical_to_cylindrical', 'find_transformation_function'], 'holopy/scattering/scatterer/composite.py': ['rotated', 'translated'], 'holopy/scattering/scatterer/scatterer.py': ['translated'], 'holopy/scattering/scatterer/csg.py': ['rotated']}
+MUTATION_TARGETS = {'holopy/core/math.py': ['rotation_matrix', 'rotate_points', 'transform_cartesian_to_spherical', 'transform_spherical_to_cartesian', 'transform_cartesian_to_cylindrical', 'transform_cylindrical_to_cartesian', 'transform_cylindrical_to_spherical', 'transform_spherical_to_cylindrical', 'find_transformation_function'], 'holopy/scattering/scatterer/composite.py': ['rotated', 'translated'], 'holopy/scattering/scatterer/scatterer.py': ['translated'], 'holopy/scattering/scatterer/csg.py': ['rotated'], 'holopy/scattering/scatterer/spherecluster.py': ['scatterers']}
 
 LEVEL = 'other'
 META = dict(
@@ -34,7 +34,8 @@ META = dict(
     technique='canonical-form (polynomial + trigonometric normal form) equality '
               'with the documented z-y-z product and with composed conversions; '
               'table extraction; interval facts by pattern; setter-less property '
-              'store rule through the MRO of every scatterer class',
+              'store rule through the MRO of every scatterer class'
+              '; exact return-path form of RigidCluster.scatterers',
     level_text='Static: M1 and M4 are algebraic identities proved for all angles / '
                'points; M3, M5, M6 are exhaustive structural checks.  Orthogonality '
                'and det = +1 follow from M1 (product of three rotations) and are '
